@@ -404,6 +404,7 @@ type SpecDef struct {
 	Params []string
 	Sorts  []string
 	Body   Expr
+	Rec    bool // recursive: emitted once as define-fun-rec, applied by name
 }
 
 func (env *Env) child() *Env {
@@ -445,6 +446,10 @@ func sortByName(n string) *Sort {
 		return SBool
 	case "atom":
 		return SAtom
+	case "strs":
+		return SeqOf(SStr)
+	case "ints":
+		return SeqOf(SInt)
 	}
 	panic("unknown sort name " + n)
 }
@@ -846,6 +851,9 @@ func callSMT(e *ECall, env *Env) Term {
 	if d, ok := env.Defs[e.Fn]; ok {
 		if len(d.Params) != len(a) {
 			specFail("%s expects %d arguments", e.Fn, len(d.Params))
+		}
+		if d.Rec {
+			return T(SInt, "(spec.%s %s)", d.Name, joinTerms(a))
 		}
 		c := &Env{Vars: map[string]Term{}, Defs: env.Defs}
 		for i, p := range d.Params {
